@@ -122,3 +122,18 @@ impl From<Extent> for Range<u64> {
         e.start..e.end
     }
 }
+
+/// Verification hooks (visibility only); compiled only with `--cfg xcp_verif`.
+#[cfg(xcp_verif)]
+pub mod verif_hooks {
+    use std::fs::File;
+    use crate::errors::Result;
+
+    pub fn copy_range_uspace(reader: &File, writer: &File, nbytes: usize, off: usize) -> Result<usize> {
+        crate::common::copy_range_uspace(reader, writer, nbytes, off)
+    }
+
+    pub fn copy_bytes_uspace(reader: &File, writer: &File, nbytes: usize) -> Result<usize> {
+        crate::common::copy_bytes_uspace(reader, writer, nbytes)
+    }
+}
